@@ -93,6 +93,15 @@ def mkstr(s):
     return Z("str", z3.StringVal(s))
 
 
+def str_int(t):
+    """str(<int>): the decimal text of a literal integer, an uninterpreted function of a symbolic one (used by the engine AND by every unit's specification,
+    so that both sides agree)"""
+    ts = z3.simplify(t) if isinstance(t, z3.ExprRef) else z3.IntVal(int(t))
+    if z3.is_int_value(ts):
+        return z3.StringVal(str(ts.as_long()))
+    return z3.Function("py_str_int", INT, STR)(t)
+
+
 class Engine:
     def __init__(self, module=None):
         self.module = module
@@ -398,10 +407,7 @@ class Engine:
         return outs
 
     def int_to_str(self, t):
-        ts = z3.simplify(t)
-        if z3.is_int_value(ts):
-            return z3.StringVal(str(ts.as_long()))  # the decimal text of a literal integer
-        return z3.Function("py_str_int", INT, STR)(t)
+        return str_int(t)
 
     def ev_Tuple(self, e, st):
         return self._display(e, st, False)
